@@ -26,6 +26,7 @@ def tasks(tier, seed):
     ts = [dict(kind="custom", module="props.c04_tasks", fn="confinement_task", cls=c) for c in ALGOS]
     ts.append(dict(kind="custom", module="props.c04_tasks", fn="confinement_task", cls="UpdateRisk", method="_set_risk_recursive"))
     ts.append(dict(kind="custom", module="props.c04_tasks", fn="closure_scan"))
+    ts.append(dict(kind="custom", module="props.c04_tasks", fn="installer_scan"))
     ts.append(dict(kind="custom", module="props.lemmas", fn="c04_security_reads_current_row"))
     ts.append(func("bt.core.StrategyBase.universe"))
     ts.append(func("bt.backtest.Backtest.run"))
